@@ -179,7 +179,7 @@ def gen(root, phase, idx, faults):
 
 
 TIERS = {
-    'quick': dict(sessions=900, fresh=12, budget=300, reseed_every=0),
+    'quick': dict(sessions=1400, fresh=12, budget=300, reseed_every=0),
     'thorough': dict(sessions=10 ** 9, fresh=200, budget=1500, reseed_every=1500),
 }
 
